@@ -244,6 +244,8 @@ def run_check(prop, tier="quick", seed=0, jobs=None, spec=None):
             print(line, flush=True)
         for i in winfo:
             log("note:", i)
+        ncorpus, cviols = runner.run_corpus(prop, machine, cr, findings) if not spec.get("no_corpus") else (0, [])
+        deadline = time.monotonic() + plan["budget_s"]
         agg = runner.run_plan(prop, machine, plan, seed, jobs, stage_dir, allocfault=allocfault, deadline=deadline, findings=findings)
         if agg.harness:
             hv = spec.get("harness_is_violation")
@@ -263,6 +265,18 @@ def run_check(prop, tier="quick", seed=0, jobs=None, spec=None):
             with open(path, "w") as fh:
                 json.dump(c, fh, indent=1, sort_keys=True)
             reports.append({"path": path, "violation": v, "seed": None, "backend": backend})
+        for name, backend, case, v in cviols[:3]:
+            # confirm in a fresh process, like every other report
+            m_ = case.get("machine", machine)
+            res2 = cr.run(m_, backend, case, fresh=True, env=case.get("env") or None)
+            if any(not known.match(prop, x, findings) for x in runner.case_violations(res2)):
+                os.makedirs(os.path.join(runner.OUT, "replays"), exist_ok=True)
+                path = os.path.join(runner.OUT, "replays", "%s-%s-corpus-%s" % (prop, backend, name))
+                c = dict(case)
+                c.update({"property": prop, "machine": m_, "backend": backend, "expect": {"signature": runner.vsig(m_, v), "violation": v}})
+                with open(path, "w") as fh:
+                    json.dump(c, fh, indent=1, sort_keys=True)
+                reports.append({"path": path, "violation": v, "seed": None, "backend": backend})
         if unconfirmed and not reports:
             log("HARNESS-ERROR: %d candidate violation(s) did not replay deterministically; first: %s"
                 % (len(unconfirmed), json.dumps(unconfirmed[0], default=str)[:3000]))
@@ -290,6 +304,7 @@ def run_check(prop, tier="quick", seed=0, jobs=None, spec=None):
             "c19_monitor_bad_exception_types_seen": agg.ctr.get("c19_monitor_bad_exception", 0),
             "runs_with_missing_knobs": agg.ctr.get("runs_with_missing_knobs", 0),
             "candidates_not_replayed": len(unconfirmed),
+            "regression_corpus_cases_replayed": ncorpus,
         }
         if agg.states:
             cov["distinct_states"] = len(agg.states)
